@@ -1,6 +1,6 @@
 SPECIFICATION SpecD
 CONSTANTS N = 2
-  Walkers = {"resolve", "length", "xref", "pages", "outline", "nametree", "filters"}
+  Walkers = {"resolve", "length", "xref", "pages", "outline", "nametree", "filters", "decode", "fields", "parents", "objwalk"}
   MaxDepth = 4
   MaxChain = 3
   StackCap = 12
@@ -9,6 +9,7 @@ CONSTANTS N = 2
   G_SCALAR = TRUE
   G_STMFIRST = TRUE
   G_CHAIN = TRUE
-  G_GLOBDEPTH = FALSE
+  G_GLOBDEPTH = TRUE
+  G_WALKDEPTH = FALSE
 INVARIANTS EmitCase NoOverflow WorkBounded ChainBounded
 CHECK_DEADLOCK TRUE
